@@ -1543,6 +1543,16 @@ class Cell(Bucket):
                 app.server = None
                 app.evicted = True
                 app.release_identity()
+            elif app.server:
+                # App was moved to allocation in a different partition or
+                # with different traits - existing placement is not valid.
+                server = servers[app.server]
+                if ((app.allocation is not None and
+                     app.allocation.label not in server.labels) or
+                        (app.traits != 0 and
+                         not server.traits.has(app.traits))):
+                    server.remove(app.name)
+                    app.release_identity()
 
     def _record_rank_and_util(self, queue):
         """Set final rank and utilization for all apps in the queue.
